@@ -218,68 +218,98 @@ def _solve_cvc5(smt2, timeout_ms):
         os.unlink(path)
 
 
-def _job(args):
-    """one obligation: prove (z3), then cvc5 on unknown, then refute (z3) for a candidate model"""
-    idx, prove_smt2, refute_smt2, budget_ms, also_cvc5 = args
+_OBS = []      # obligations of the current discharge() call; workers inherit them through fork (no serialisation)
+_CFG = {}
+
+
+def _check(assertions, timeout_ms, want_model=False, probes=None):
+    s = z3.Solver()
+    s.set(timeout=timeout_ms)
+    s.add(assertions)
+    t0 = time.time()
+    try:
+        r = s.check()
+    except z3.Z3Exception as e:
+        return {"result": "error", "reason": str(e)[:300], "time": time.time() - t0}
+    out = {"result": str(r), "time": time.time() - t0}
+    if r == z3.unknown:
+        out["reason"] = s.reason_unknown()
+    if r == z3.sat and want_model:
+        m = s.model()
+        d = {}
+        for decl in m.decls():
+            try:
+                d[decl.name()] = _val_str(m[decl])
+            except Exception:
+                pass
+        out["model"] = d
+        pv = {}
+        for k, t in (probes or {}).items():
+            try:
+                pv[k] = str(m.eval(t, model_completion=True))
+            except Exception as e:
+                pv[k] = None
+        out["probes"] = pv
+    return out
+
+
+def _job(idx):
+    ob = _OBS[idx]
+    budget_ms, also_cvc5, refute = _CFG["budget_ms"], _CFG["also_cvc5"], _CFG["refute"]
     log = []
-    r = _solve_z3(prove_smt2, budget_ms, False)
+    ax = library_axioms(ob.hyps + [ob.goal])
+    full = ax + ob.hyps + [z3.Not(ob.goal)]
+    r = _check(full, budget_ms)
     log.append(("z3-prove", r["result"], round(r["time"], 3)))
     out = {"idx": idx, "log": log}
     if r["result"] == "unsat":
-        out["verdict"] = "proved"
-        out["backend"] = "z3"
+        out["verdict"], out["backend"] = "proved", "z3"
         if also_cvc5:
-            c = _solve_cvc5(prove_smt2, budget_ms)
+            c = _solve_cvc5(to_smt2(full), budget_ms)
             log.append(("cvc5-prove", c["result"], round(c["time"], 3)))
             out["cvc5_agrees"] = c["result"] == "unsat"
             if c["result"] == "sat":
                 out["verdict"] = "solver-disagreement"
         return out
-    if r["result"] == "sat":
-        # quantified query answered sat: treat as refuted candidate (model from refute query below)
-        pass
     if r["result"] in ("unknown", "error"):
-        c = _solve_cvc5(prove_smt2, budget_ms)
+        c = _solve_cvc5(to_smt2(full), budget_ms)
         log.append(("cvc5-prove", c["result"], round(c["time"], 3)))
         if c["result"] == "unsat":
-            out["verdict"] = "proved"
-            out["backend"] = "cvc5"
+            out["verdict"], out["backend"] = "proved", "cvc5"
             return out
-    f = _solve_z3(refute_smt2, budget_ms, True)
+    if not refute:
+        out["verdict"], out["reason"] = "unknown", r.get("reason")
+        return out
+    g = ground(ax + ob.hyps, ob.goal)
+    f = _check(g, budget_ms, True, getattr(ob, "probes", None))
     log.append(("z3-refute", f["result"], round(f["time"], 3)))
     if f["result"] == "unsat":
-        out["verdict"] = "proved"
-        out["backend"] = "z3-ground"
-        return out
-    if f["result"] == "sat":
-        out["verdict"] = "refuted"
-        out["model"] = f.get("model", {})
-        return out
-    out["verdict"] = "unknown"
-    out["reason"] = f.get("reason") or r.get("reason")
+        out["verdict"], out["backend"] = "proved", "z3-ground"
+    elif f["result"] == "sat":
+        out["verdict"], out["model"], out["probes"] = "refuted", f.get("model", {}), f.get("probes", {})
+    else:
+        out["verdict"], out["reason"] = "unknown", f.get("reason") or r.get("reason")
     return out
 
 
-def discharge(obligations, budget_s=20, jobs=None, also_cvc5=False, progress=None):
-    """obligations: list of interp.Obligation -> list of result dicts (same order)"""
+def discharge(obligations, budget_s=20, jobs=None, also_cvc5=False, refute=True):
+    """obligations: list of interp.Obligation -> list of result dicts (same order).
+    Workers are forked after the obligations exist and use the inherited z3 terms directly.
+    NOTE: the parent must not have used z3 timeouts before (timer threads do not survive fork): Exec uses rlimit."""
+    global _OBS, _CFG
     jobs = jobs or min(16, os.cpu_count() or 4)
-    tasks = []
-    for i, ob in enumerate(obligations):
-        ax = library_axioms(ob.hyps + [ob.goal])
-        prove = to_smt2(ax + ob.hyps + [z3.Not(ob.goal)])
-        gr = ground(ax + ob.hyps, ob.goal)
-        refute = to_smt2(gr)
-        tasks.append((i, prove, refute, int(budget_s * 1000), also_cvc5))
-    if not tasks:
+    _OBS = list(obligations)
+    _CFG = dict(budget_ms=int(budget_s * 1000), also_cvc5=also_cvc5, refute=refute)
+    n = len(_OBS)
+    if n == 0:
         return []
-    res = [None] * len(tasks)
-    if jobs == 1 or len(tasks) == 1:
-        for t in tasks:
-            r = _job(t)
-            res[r["idx"]] = r
+    res = [None] * n
+    if jobs == 1 or n == 1:
+        for i in range(n):
+            res[i] = _job(i)
         return res
     ctx = mp.get_context("fork")
-    with ctx.Pool(min(jobs, len(tasks))) as pool:
-        for r in pool.imap_unordered(_job, tasks, chunksize=1):
+    with ctx.Pool(min(jobs, n)) as pool:
+        for r in pool.imap_unordered(_job, range(n), chunksize=4):
             res[r["idx"]] = r
     return res
